@@ -313,6 +313,9 @@ func (fx *FuncCtx) pureCall(st *State, name string, args []*Val, resT types.Type
 		} else {
 			t = "(" + n + " " + strings.Join(terms, " ") + ")"
 		}
+		if fx.pureInline {
+			return &Val{T: t, Ty: rt}
+		}
 		v := &Val{T: fx.define("pc", rs, t), Ty: rt}
 		fx.assume(st, fx.wfPure(st, v.T, rt))
 		return v
@@ -452,6 +455,9 @@ func (fx *FuncCtx) builtin(st *State, b *ssa.Builtin, c *ssa.CallCommon, args []
 	case "recover":
 		return &Val{T: "(mk_if 0 0)", Ty: resT}
 	}
+	if b.Name() == "ssa:deferstack" {
+		return &Val{T: "0", Ty: resT}
+	}
 	fx.note("builtin %s abstracted", b.Name())
 	return fx.freshVal(st, "bi", resT)
 }
@@ -508,6 +514,8 @@ func (fx *FuncCtx) applyContract(st *State, ct *Contract, names []string, args [
 	pkg := fx.eng.pkgOfContract(ct, callee)
 	pre := st.clone()
 	envPre := &Env{fx: fx, st: pre, old: pre, vars: vars, pkg: pkg, errs: &fx.clauseErrs, lets: ct.Lets}
+	recs := fx.defineRecFuns(ct, envPre)
+	envPre.recs = recs
 	short := key
 	if i := strings.LastIndex(short, ":"); i >= 0 {
 		short = short[i+1:]
@@ -530,11 +538,10 @@ func (fx *FuncCtx) applyContract(st *State, ct *Contract, names []string, args [
 		for i, m := range ct.Modifies {
 			fx.havocLocation(st, envPre, m, ct.ModText[i])
 		}
-		if len(ct.Modifies) > 0 || ct.Kind == "func" {
-			old := st.Alloc
-			st.Alloc = fx.declare("alloc", "Int")
-			fx.emit(fmt.Sprintf("(assert (>= %s %s))", st.Alloc, old))
-		}
+		// the callee may allocate: results can be fresh references
+		old := st.Alloc
+		st.Alloc = fx.declare("alloc", "Int")
+		fx.emit(fmt.Sprintf("(assert (>= %s %s))", st.Alloc, old))
 	}
 	for _, a := range args {
 		if a.Addr != nil && a.Addr.Kind == ALocal && !ct.Pure {
@@ -578,7 +585,7 @@ func (fx *FuncCtx) applyContract(st *State, ct *Contract, names []string, args [
 		post["ret0"] = res
 		post["ret"] = res
 	}
-	envPost := &Env{fx: fx, st: st, old: pre, vars: post, pkg: pkg, errs: &fx.clauseErrs, lets: ct.Lets}
+	envPost := &Env{fx: fx, st: st, old: pre, vars: post, pkg: pkg, errs: &fx.clauseErrs, lets: ct.Lets, recs: recs}
 	for _, c := range ct.Ensures {
 		if cond, ok := unchangedGuard(c.Expr); ok {
 			// imp(cond, unchanged()): under cond the callee leaves the heap as it was
@@ -711,6 +718,7 @@ func (fx *FuncCtx) atReturn(st *State, ins *ssa.Return, vals []*Val) {
 	}
 	fx.rets = append(fx.rets, &retPoint{st: st.clone(), vals: vals, ins: ins})
 	k := len(fx.rets)
+	fx.coverProbe(st, fmt.Sprintf("ret%d", k), "true")
 	if fx.ct == nil {
 		return
 	}
@@ -885,7 +893,10 @@ func (fx *FuncCtx) modRef(env *Env, m ast.Expr) string {
 		return base.T
 	case *ast.SliceExpr:
 		base := env.eval(x.X)
-		return fx.arrOf(base.T)
+		if _, ok := base.Ty.Underlying().(*types.Slice); ok {
+			return fx.arrOf(base.T)
+		}
+		return base.T
 	case *ast.CallExpr:
 		if len(x.Args) > 0 {
 			a := env.eval(x.Args[0])
@@ -1058,7 +1069,7 @@ func (fx *FuncCtx) restoreWhen(st, pre *State, cond string) {
 	keep := st.clone()
 	rest := pre.clone()
 	for c, t := range st.Heap {
-		if strings.HasPrefix(c, "G$rd_pos") || strings.HasPrefix(c, "G$it_") {
+		if strings.HasPrefix(c, "G$rd_pos") || strings.HasPrefix(c, "G$it_") || strings.HasPrefix(c, "G$put_") {
 			rest.Heap[c] = t
 		}
 	}
